@@ -36,6 +36,10 @@ def run(ctx, pid, imports, items, extra_defs=None):
     failed_fn = []
     for it in items:
         try:
+            if it.get("fn"):                 # a custom translation (harness/lib/pyarr.py): repo -> Gallina text
+                gen += it["fn"](repo)
+                ctx.count("srctie:translated")
+                continue
             if it.get("kwarg"):
                 gen += pysrc.translate_kwarg(repo, it["file"], it["qualname"], it["kwarg"], it["name"], it["params"], it["rettype"],
                                              calls=it.get("calls"), consts=it.get("consts"))
@@ -68,7 +72,7 @@ def run(ctx, pid, imports, items, extra_defs=None):
         axs = sorted(set(re.findall(r"^([A-Z][A-Za-z0-9_]*\.[A-Za-z0-9_.]+)\s*:", out, flags=re.M)))
         for n in names:
             ctx.axioms["%s(source tie)" % n] = axs
-        ctx.checker_cmd += " ; coqc build/run/%s-src/SrcTie.v (source of %s translated by harness/lib/pysrc.py + coq/%s/SrcTie.v.in; regenerated each run)" % (
+        ctx.checker_cmd += " ; coqc build/run/%s-src/SrcTie.v (source of %s translated by harness/lib/pysrc.py / pyarr.py + coq/%s/SrcTie.v.in; regenerated each run)" % (
             pid, ", ".join(sorted({it["file"] for it in items})), pid)
         return True
     # which lemma broke: the error message carries a line number of the generated file
